@@ -55,7 +55,7 @@ struct E7 : Engine {
 			ops.push(o); }
 		p["ops"] = ops;
 		J c = J::obj(); c["sid"] = (int)r.below(2); c["len"] = pick_len(); c["dl"] = 1 + (int)r.below(20); c["fill"] = (int)r.below(6);
-		c["post"] = (int)r.below(4);   // 0 load, 1 gc+load, 2 load twice, 3 the application repeats the interrupted save (same value, same deadline) to completion and loads c["tick_after"] = r.below(3)==0 ? (int)r.below(25) : 0; c["random_states"] = thorough ? 256 : 64;
+		c["post"] = (int)r.below(4);   /* 0 load, 1 gc+load, 2 load twice, 3 the application repeats the interrupted save (same value, same deadline) to completion and loads */ c["tick_after"] = r.below(3)==0 ? (int)r.below(25) : 0; c["random_states"] = thorough ? 256 : 64;
 		p["crash"] = c;
 		// a fifth of the plans: instead of the crashing save, a concurrent phase - savers, loaders, removers and gc as scheduled threads on the same two sessions
 		if(r.below(5) == 0){ p["crash"] = J(); J th = J::arr(); int nt = 2 + r.below(2);
